@@ -59,6 +59,7 @@ pub struct Flags {
     pub refused: u32,
     pub hol_stall: bool,
     pub iter_panicked: bool,
+    pub teardown_after_foreign_violation: bool,
     pub hint_after_up_end: u32,
     pub processed: u64,
     pub cycles: u32,
@@ -291,7 +292,7 @@ impl Hist {
             k.wake_other = Some(r.below(id as usize) as u32);
         }
         if self.allow_panics && r.chance(1, 10) {
-            if r.chance(1, 2) {
+            if self.w.poll_panics_only.get() || r.chance(1, 2) {
                 k.panic_in_poll = r.range(1, 2) as u32;
             } else {
                 k.panic_in_drop = true;
@@ -409,6 +410,8 @@ impl Hist {
         self.start = start;
         self.pos = start.unwrap_or(0);
         self.w.kid_kind_try.set(kind.is_try());
+        self.w.discard_rule.set(!kind.is_join() && kind != Kind::ForEach);
+        self.w.ordered_subject.set(kind.is_ordered());
         self.flags.ctor_called = true;
         let from_iter = matches!(ctor, Ctor::FromIter) || kind.is_join() || kind == Kind::MergeB;
         let ids: Vec<u32> = if from_iter { (0..n_init).map(|_| self.new_child()).collect() } else { Vec::new() };
@@ -856,6 +859,7 @@ impl Hist {
                     return;
                 }
                 let (id, seq, tid) = (t.producer, t.seq, t.id);
+                w.handed_out.borrow_mut().insert(tid);
                 w.event(ev::POLL_END, 1, id as u64);
                 self.h(0xA1);
                 self.h(id as u64);
@@ -1154,40 +1158,88 @@ impl Hist {
         self.push_id(id, how);
     }
 
-    /// `extend` with a batch of children (ordered collections; the bounded one only when the
-    /// whole batch fits, since `extend` panics like `push_back` otherwise)
+    /// `extend` with a batch of children (ordered collections). The bounded one mostly gets
+    /// batches that fit; now and then one to three more than fit: `extend` then panics like
+    /// `push_back` on a full queue, after having accepted what fits, and the panic must not
+    /// disturb what is held (twin run: the same history with only the fitting part offered).
     pub fn op_extend(&mut self, n: usize) {
         if self.subj.is_none() || !matches!(self.kind, Kind::Fo | Kind::Fob) {
             return;
         }
-        let n = if self.kind == Kind::Fob { n.min(self.cap.saturating_sub(self.running())) } else { n };
-        if n == 0 {
+        let mut n = n;
+        let mut over = 0;
+        if self.kind == Kind::Fob {
+            let room = self.cap.saturating_sub(self.running());
+            n = n.min(room);
+            if self.rng.chance(1, 6) {
+                // everything that fits, and one to three more
+                n = room;
+                over = self.rng.range(1, 3);
+            }
+        }
+        if n + over == 0 {
             return;
         }
-        let ids: Vec<u32> = (0..n).map(|_| self.new_child()).collect();
+        let mut ids: Vec<u32> = (0..n + over).map(|_| self.new_child()).collect();
+        let twin = over > 0 && self.suppress_refused;
+        if twin {
+            for id in ids.split_off(n) {
+                drop(crate::kids::Child::new(id));
+            }
+            self.flags.refused += 1;
+        }
+        let expect_panic = over > 0 && !twin;
         let w = self.w.clone();
         let subj = self.subj.as_mut().unwrap();
         let prev = w.ctx.get();
         w.ctx.set(Ctx::InOther);
+        let allocs_before = alloc::in_crate_allocs();
         world::beacon_phase(2);
         let r = catch_unwind(AssertUnwindSafe(|| subj.extend(&ids)));
         world::beacon_phase(0);
         w.ctx.set(prev);
-        self.h(0xB8);
-        self.h(n as u64);
-        match r {
-            Ok(_) => {
+        if r.is_err() {
+            // the panic machinery allocates (message, payload); that is not the crate's doing
+            self.alloc_base += alloc::in_crate_allocs() - allocs_before;
+        }
+        if n > 0 {
+            self.h(0xB8);
+            self.h(n as u64);
+        }
+        match (r, expect_panic) {
+            (Ok(_), false) => {
                 for id in ids {
                     w.event(ev::PUSH, id as u64, 9);
                     self.accept(id, false);
                     bump(&w.stats.pushes);
                 }
-                if self.n_yielded > 0 {
+                if self.n_yielded > 0 && n > 0 {
                     self.flags.refills += 1;
                 }
                 self.note_layout();
             }
-            Err(p) => {
+            (Err(_), true) => {
+                // what fitted is in, the rest went down with the iterator
+                self.flags.refused += 1;
+                bump(&w.stats.refused);
+                for (i, id) in ids.iter().enumerate() {
+                    if i < n {
+                        w.event(ev::PUSH, *id as u64, 9);
+                        self.accept(*id, false);
+                        bump(&w.stats.pushes);
+                    } else if w.kids.borrow()[*id as usize].drops != 1 {
+                        w.violation("C06", "refused_child_drop_count", format!("kid {id} did not fit into the extend, its drop count is not 1 after the unwind"));
+                    }
+                }
+                self.note_layout();
+            }
+            (Ok(_), true) => {
+                w.violation("C15", "extend_accepted_beyond_capacity", format!("extend of {} children returned normally although only {n} fit ({})", n + over, self.desc));
+                self.aborted = Some("extend beyond capacity".into());
+                std::mem::forget(self.subj.take());
+                return;
+            }
+            (Err(p), false) => {
                 w.violation("C15", "extend_panicked_with_room", format!("extend of {n} children panicked although there is room: {}", msg_of(p)));
                 self.aborted = Some("extend panicked".into());
                 std::mem::forget(self.subj.take());
@@ -1275,6 +1327,12 @@ impl Hist {
                 self.flags.refused += 1;
                 if accepts {
                     w.violation("C15", "push_panicked_with_room", format!("push of kid {id} panicked although there is room: {m}"));
+                    if self.kind.is_merge() {
+                        // a source that cannot be added is a source whose items are never merged
+                        w.violation("C11", "source_refused", format!("push of source {id} panicked although there is room: {m} ({})", self.desc));
+                    } else if self.kind.is_unbounded() {
+                        w.violation("C02", "push_panicked", format!("the unbounded collection refused kid {id}: {m} ({})", self.desc));
+                    }
                     self.aborted = Some("push panicked".into());
                     std::mem::forget(self.subj.take());
                     return;
@@ -1923,11 +1981,16 @@ fn run_history_once(p: &Params, hist_index: u64) -> HistResult {
             6 | 7 => kind.is_join(),
             5 | 8 => kind.is_join() || coll,
             12 => coll,
+            2 | 4 => coll,
             15 => kind == Kind::Fub,
             _ => false,
         }
         && h.rng.chance(1, if matches!(p.prop, 5 | 6 | 7) { 3 } else { 6 });
-    if h.allow_panics && h.rng.chance(1, 2) {
+    if h.allow_panics && matches!(p.prop, 2 | 4) {
+        // only `poll`s panic here: the crate is then never in the middle of its own
+        // bookkeeping, and the rules about finished outputs stay in force
+        w.poll_panics_only.set(true);
+    } else if h.allow_panics && h.rng.chance(1, 2) {
         w.panic_outputs.set(true);
     }
     w.panic_leaks_ok.set(kind != Kind::JoinAll);
@@ -1972,6 +2035,12 @@ fn run_history_once(p: &Params, hist_index: u64) -> HistResult {
         let ready = if script.len() > 60 { *h.rng.pick(&[100u8, 100, 50, 0]) } else { *h.rng.pick(&[0u8, 20, 50, 100]) };
         let fail = if kind.is_try() { *h.rng.pick(&[0u8, 10, 30]) } else { 0 };
         w.install_upstream(script, hint_mode, ready, fail, 15);
+        if p.prop == 6 && !p.no_panics && h.rng.chance(1, 8) {
+            // the upstream stream's destructor panics when the adapter drops it at its end
+            let obj = w.up.borrow().as_ref().unwrap().obj;
+            w.ident_panics.set(Some(obj));
+            w.panic_leaks_ok.set(true);
+        }
     }
     if kind == Kind::JoinAll && !h.allow_panics && h.rng.chance(1, 4) {
         // inputs without drop glue (plain data): the combinator must still drop their outputs
@@ -2007,6 +2076,14 @@ fn run_history_once(p: &Params, hist_index: u64) -> HistResult {
                 let orphans = early_drop || h.rng.chance(1, 2);
                 h.finish(wf, orphans);
             }
+        } else if matches!(p.prop, 3 | 6) && h.subj.is_some() && h.aborted.is_none() && w.only_behavioural_violations() {
+            // a behavioural rule of another property ended the history (the reference model is
+            // out of step), but the teardown verdicts of C03 / C06 need no model: whatever was
+            // created must be dropped exactly once, every block released, once the subject and
+            // all wakers are gone
+            h.flags.teardown_after_foreign_violation = true;
+            let wf = h.rng.chance(1, 2);
+            h.finish(wf, false);
         }
     }
     finish_result(h)
